@@ -11,6 +11,10 @@ import OdxVerif.Model.Pdx
                                 → `(ok (dlcs frag…) (subsets frag…) (specs frag…) (version n) (links (frag id obj)…))` | `(err)`
                                                                  -- Database._process_xml_tree per file + _build_odxlinks
             `(dispatch pdx|files|dir suffix name)` → `odx` | `index` | `aux` | `pdx`   -- file-type dispatch of the entry points
+            `(effective fuel (files (f …)…) (raw (o obj KIND (cps (tag id proto|-)…) (locals (name tag)…) (parents ((frag id) excl…)…))…)
+                        (keys (frag id)…))`
+                                → `(ok (l frag id (cps tag…)|(cps none) (objs ok (name tag)…)|(objs err)|(objs none))…)` | `(err)`
+                                                                 -- per layer: comparam_refs and the objects of one category after refresh()
   anything else → `(bad-request)` -/
 open OdxVerif OdxVerif.Pdx
 
@@ -53,9 +57,49 @@ def handleLoad (fs : List Sexp) : String :=
       let v := match db.version with | some n => toString n | none => "none"
       s!"(ok {fragsStr "dlcs" db.dlcs} {fragsStr "subsets" db.subsets} {fragsStr "specs" db.specs} (version {v}) {linksStr db})"
 
+def parseRaw : Sexp → Option (Nat × RawLayer)
+  | .list [.atom "o", o, .atom kind, .list (.atom "cps" :: cps), .list (.atom "locals" :: ls), .list (.atom "parents" :: ps)] => do
+    let o ← o.asNat?
+    let k ← Gen.LayerKind.all.find? fun k => k.odxName == kind
+    let cps ← cps.mapM fun
+      | .list [t, .atom i, .atom pr] => do
+        pure (⟨← t.asNat?, i, if pr == "-" then none else some pr, .str "", .simple i ""⟩ : Comparam.Inst)
+      | _ => none
+    let ls ← ls.mapM fun
+      | .list [a, b] => do pure (⟨← a.asNat?, ← b.asNat?⟩ : Inherit.Obj)
+      | _ => none
+    let ps ← ps.mapM fun
+      | .list (.list [.atom fr, .atom i] :: ex) => do pure ((fr, i), ← ex.mapM Sexp.asNat?)
+      | _ => none
+    pure (o, ⟨k, cps, ls, ps⟩)
+  | _ => none
+
+def handleEffective (fuel : Nat) (fs raws keys : List Sexp) : String :=
+  match fs.mapM parseFile, raws.mapM parseRaw, keys.mapM (fun | .list [.atom fr, .atom i] => some (fr, i) | _ => none) with
+  | some files, some raws, some keys =>
+    match processAll files with
+    | .error _ => "(err)"
+    | .ok db =>
+      let raw : Nat → Option RawLayer := fun o => raws.lookup o
+      let one (k : String × String) : String :=
+        let cps := match effectiveComparams db raw fuel k with
+          | some l => "(" ++ " ".intercalate ("cps" :: l.map fun (c : Comparam.Inst) => toString c.tag) ++ ")"
+          | none => "(cps none)"
+        let objs := match effectiveObjects db raw fuel k with
+          | some (.ok l) => "(" ++ " ".intercalate ("objs" :: "ok" :: l.map fun (o : Inherit.Obj) => s!"({o.name} {o.tag})") ++ ")"
+          | some (.error _) => "(objs err)"
+          | none => "(objs none)"
+        s!"(l {k.1} {k.2} {cps} {objs})"
+      "(" ++ " ".intercalate ("ok" :: keys.map one) ++ ")"
+  | _, _, _ => "(bad-request)"
+
 def handle (sx : Sexp) : String :=
   match sx with
   | .list (.atom "load" :: fs) => handleLoad fs
+  | .list [.atom "effective", fuel, .list (.atom "files" :: fs), .list (.atom "raw" :: raws), .list (.atom "keys" :: keys)] =>
+    match fuel.asNat? with
+    | some n => handleEffective n fs raws keys
+    | none => "(bad-request)"
   | .list [.atom "dispatch", .atom ep, .atom suffix, .atom name] =>
     let ep? := if ep == "pdx" then some Entry.pdx else if ep == "files" then some Entry.files
                else if ep == "dir" then some Entry.dir else none
